@@ -191,6 +191,45 @@ def monitor_discipline(c):
                         side, g1, g2)
                 if g2 > 60000:
                     return "%s retransmission interval %d ms above the 60 s cap" % (side, g2)
+        # NEW data restores the initial interval even when it does not complete the awaited flight:
+        # after a datagram carrying a handshake message number never seen before, the timer expiry
+        # that follows doubles the INITIAL interval, so the gap between the next two timer
+        # retransmissions is 2 x initial (initial without backoff) when nothing arrives in between
+        ev = c["events"]
+        maxms = -1
+        marks = []          # per event index: "T" timer group start of side, "N" truly new delivery, "D" other delivery
+        content = {}
+        lastT = None
+        for i, e in enumerate(ev):
+            if e["ev"] == "emit":
+                content[e["idx"]] = e["recs"]
+                if e["side"] == side and e["cause"] == "timer" and e["t"] > 0 and e["t"] != lastT:
+                    marks.append(("T", e["t"]))
+                    lastT = e["t"]
+            elif e["ev"] == "deliver" and e["side"] == side:
+                recs = content.get(e["idx"]) or []
+                ms = [r["ms"] for r in recs if r["ct"] == 22 and r["e"] == 0]
+                if ms and max(ms) > maxms and all(r["ct"] == 22 and r["e"] == 0 for r in recs):
+                    marks.append(("N", e["t"]))
+                else:
+                    marks.append(("D", e["t"]))
+                if ms:
+                    maxms = max(maxms, max(ms))
+        for i in range(len(marks)):
+            if marks[i][0] != "N":
+                continue
+            rest = marks[i + 1:]
+            ts = [j for j, m in enumerate(rest) if m[0] == "T"]
+            if len(ts) < 2:
+                continue
+            a, b = ts[0], ts[1]
+            if any(m[0] != "T" for m in rest[a:b]):
+                continue     # something arrived between the two expiries
+            gap = rest[b][1] - rest[a][1]
+            want = I if c["no_backoff"] else min(2 * I, 60000)
+            if gap != want:
+                return "%s: after new handshake data at %d ms the next two timer retransmissions are %d ms apart (expected %d: the initial interval is restored by new data)" % (
+                    side, marks[i][1], gap, want)
         nem = sum(1 for e in c["events"] if e["ev"] == "emit" and e["side"] == side)
         ndel = sum(1 for e in c["events"] if e["ev"] == "deliver" and e["side"] == side)
         maxfl = 1
